@@ -12,6 +12,7 @@ import (
 	"path"
 	"strconv"
 	"strings"
+	"unicode/utf8"
 
 	"github.com/openGemini/openGemini/engine/immutable/colstore"
 	"github.com/openGemini/openGemini/engine/index/bloomfilter"
@@ -114,6 +115,59 @@ type TokVal struct {
 	WriterBytewise bool    `json:"writerbytewise"`
 	ASCII          bool    `json:"ascii"`
 	Skip           bool    `json:"skip,omitempty"` // not a value observation (only its pair is meant)
+	// UTF-8 aware tokens (UtfTok.utokens, computed by the harness the way the model defines them); URealOK = the real
+	// SimpleUtf8Tokenizer yields exactly the hashes of these tokens, in order; WriterUtf8 = the filter bytes GenBloomFilterData
+	// writes for the value equal the bytes SimpleUtf8Tokenizer.ProcessTokenizerBatch writes; Valid = utf8.Valid
+	UToks      [][]int `json:"utoks"`
+	URealOK    bool    `json:"urealok"`
+	WriterUtf8 bool    `json:"writerutf8"`
+	Valid      bool    `json:"valid"`
+	UPanic     bool    `json:"upanic,omitempty"` // the real UTF-8 tokenizer panicked on the value (truncated character, before fix8)
+}
+
+// utoksOf: the UTF-8 aware tokens as coq/C20/UtfTok.v defines them
+func utoksOf(b []byte, table []byte) [][]byte {
+	var res [][]byte
+	var cur []byte
+	flush := func() {
+		if len(cur) > 0 {
+			res = append(res, cur)
+			cur = nil
+		}
+	}
+	for i := 0; i < len(b); {
+		x := b[i]
+		switch {
+		case x < 0x80 && table[x] > 0:
+			flush()
+			i++
+		case x < 0x80:
+			cur = append(cur, x)
+			i++
+		default:
+			flush()
+			n := 0
+			if x <= 0xdf {
+				n = 2
+			} else if x <= 0xef {
+				n = 3
+			} else if x <= 0xf7 {
+				n = 4
+			}
+			if n == 0 {
+				i++
+				continue
+			}
+			e := i + n
+			if e > len(b) {
+				e = len(b)
+			}
+			res = append(res, append([]byte(nil), b[i:e]...))
+			i = e
+		}
+	}
+	flush()
+	return res
 }
 type TokPair struct {
 	P []int `json:"p"`
@@ -181,6 +235,30 @@ func tokProbe(in *BloomIn) *TokObs {
 				tv.RealOK = false
 			}
 		}
+		// UTF-8 aware tokens
+		tv.Valid = utf8.ValidString(v)
+		uhash := func(s []byte) (hs []uint64, pan bool) {
+			p := guard(func() {
+				tk := tokenizer.NewSimpleUtf8Tokenizer(table)
+				tk.InitInput(s)
+				for tk.Next() {
+					hs = append(hs, tk.CurrentHash())
+				}
+			})
+			return hs, p != ""
+		}
+		ureal, pan := uhash(b)
+		tv.UPanic = pan
+		tv.UToks = [][]int{}
+		ut := utoksOf(b, table)
+		tv.URealOK = !pan && len(ureal) == len(ut)
+		for i, t := range ut {
+			tv.UToks = append(tv.UToks, bytesOf(string(t)))
+			one, p1 := uhash(t)
+			if tv.URealOK && (p1 || len(one) != 1 || one[0] != ureal[i]) {
+				tv.URealOK = false
+			}
+		}
 		// what the writer inserts for this value alone
 		var col record.ColVal
 		col.AppendString(v)
@@ -191,6 +269,9 @@ func tokProbe(in *BloomIn) *TokObs {
 			offs, lens := col.GetOffsAndLens()
 			tokenizer.NewSimpleTokenizer(table).ProcessTokenizerBatch(col.Val, ref[:len(ref)-4], offs, lens)
 			tv.WriterBytewise = string(ref[:len(ref)-4]) == string(data[:len(data)-4])
+			ref2 := make([]byte, len(data))
+			tokenizer.NewSimpleUtf8Tokenizer(table).ProcessTokenizerBatch(col.Val, ref2[:len(ref2)-4], offs, lens)
+			tv.WriterUtf8 = string(ref2[:len(ref2)-4]) == string(data[:len(data)-4])
 		})
 		_ = p // a panic of the writer on this value alone is reported by the case's own writer run (oracle), not here
 		ob.Vals = append(ob.Vals, tv)
